@@ -1089,6 +1089,95 @@ fn editor(out: &str, json: &str) -> i32 {
     st.fails.len() as i32
 }
 
+/// two dictionaries that live side by side in ONE directory (and one process), changed and flushed at the same time,
+/// their writers running freely: after both are closed normally each file holds exactly its own accepted changes -
+/// and at no moment of the run is either file something that does not load.  (Real timing, no scheduling: the
+/// writers of the two dictionaries overlap because the flushes are issued back to back.)
+fn pair(rounds: usize, out: &str, json: &str) -> i32 {
+    let base = work_base();
+    let mut st = Stats::default();
+    let t0 = Instant::now();
+    let mut lines = vec![];
+    *WATCH.lock().unwrap() = None;
+    for round in 0..rounds {
+        let dir = fresh_dir(&base, "pair");
+        let paths = [dir.join("first.dat"), dir.join("second.dat")];
+        let sched = format!("pair:round {} (keys 0..{} / 4..{}, {} flushes)", round, 2 + round % 3, 6 + round % 3, 1 + round % 2);
+        let mut fails: Vec<Failure> = vec![];
+        // the initial files: key 0 -> 1 in the first, key 4 -> 1 in the second
+        for (i, p) in paths.iter().enumerate() {
+            let mut b = TrieBuilder::new();
+            b.insert(&[key_syllable(4 * i)], Phrase::new(PHRASE, 1)).unwrap();
+            b.build(p).unwrap();
+        }
+        let mut want: [BTreeMap<usize, u32>; 2] = [BTreeMap::new(), BTreeMap::new()];
+        want[0].insert(0, 1);
+        want[1].insert(4, 1);
+        let mut dicts = [TrieBuf::open(&paths[0]).unwrap(), TrieBuf::open(&paths[1]).unwrap()];
+        for f in 0..(1 + round % 2) {
+            for (i, d) in dicts.iter_mut().enumerate() {
+                for k in 0..(2 + round % 3) {
+                    let key = 4 * i + k;
+                    let freq = (10 * (round + 1) + f + k) as u32;
+                    d.update_phrase(&[key_syllable(key)], Phrase::new(PHRASE, freq), freq, 0).unwrap();
+                    want[i].insert(key, freq);
+                }
+            }
+            // both flushes back to back: the two writers run at the same time
+            for d in dicts.iter_mut() {
+                let _ = d.flush();
+            }
+            for p in &paths {
+                if disk_table(p).is_none() {
+                    fails.push(Failure { oracle: "not-loadable", detail: format!("{} does not load while the two writers run", p.display()) });
+                }
+            }
+            if round % 4 == 3 {
+                for d in dicts.iter_mut() {
+                    let _ = d.reopen();
+                }
+            }
+        }
+        let [d0, d1] = dicts;
+        drop(d0);
+        drop(d1);
+        for (i, p) in paths.iter().enumerate() {
+            match disk_table(p) {
+                None => fails.push(Failure { oracle: "not-loadable", detail: format!("{} does not load after both dictionaries were closed", p.display()) }),
+                Some(got) => {
+                    if got != want[i] {
+                        fails.push(Failure {
+                            oracle: "lost-after-close",
+                            detail: format!("{} holds {} after flush and close, accepted changes {}", p.file_name().unwrap().to_string_lossy(), fmt_table(&Some(got)), fmt_table(&Some(want[i].clone()))),
+                        });
+                    }
+                }
+            }
+        }
+        // nothing but the two dictionaries is left behind in their directory
+        let left: Vec<String> = std::fs::read_dir(&dir).map(|r| r.filter_map(|e| e.ok()).map(|e| e.file_name().to_string_lossy().to_string()).filter(|n| n != "first.dat" && n != "second.dat").collect()).unwrap_or_default();
+        if !left.is_empty() {
+            fails.push(Failure { oracle: "staging-file-left-behind", detail: format!("{:?}", left) });
+        }
+        let _ = std::fs::remove_dir_all(&dir);
+        st.leaves += 1;
+        st.with_writer += 1;
+        lines.push(format!("{} | failures={}", sched, fails.len()));
+        for f in fails {
+            st.fails.push((sched.clone(), f));
+        }
+    }
+    st.samples = lines.iter().take(3).cloned().collect();
+    std::fs::write(out, "").unwrap();
+    std::fs::write(format!("{}.pair.txt", out), lines.join("\n")).unwrap();
+    let _ = std::fs::remove_dir_all(&base);
+    st.write_json(json, t0);
+    for (s, f) in st.fails.iter().take(5) {
+        println!("ORACLE {} : {} : {}", f.oracle, s, f.detail);
+    }
+    st.fails.len() as i32
+}
+
 fn wait_for_short(cond: impl Fn(&Ctl) -> bool) -> bool {
     let t0 = Instant::now();
     let mut g = CTL.lock().unwrap();
@@ -1127,6 +1216,7 @@ fn main() {
         }
         Some("random") => random(args[1].parse().unwrap(), args[2].parse().unwrap(), &args[3], &args[4]),
         Some("corpus") => corpus(&args[1], &args[2], &args[3]),
+        Some("pair") => pair(args[1].parse().unwrap(), &args[2], &args[3]),
         Some("editor") => {
             editor(&args[1], &args[2]);
             0
@@ -1137,6 +1227,14 @@ fn main() {
             let n = editor(&format!("{}/ed.trace", base.display()), &format!("{}/ed.json", base.display()));
             let _ = std::fs::remove_dir_all(&base);
             println!("editor campaign: {} oracle failures", n);
+            if n > 0 { 1 } else { 0 }
+        }
+        Some("replay") if args.get(1).map(|a| a.starts_with("pair:")).unwrap_or(false) => {
+            // real timing: replay the whole (short) campaign
+            let base = work_base();
+            let n = pair(40, &format!("{}/pair.trace", base.display()), &format!("{}/pair.json", base.display()));
+            let _ = std::fs::remove_dir_all(&base);
+            println!("two-dictionaries campaign: {} oracle failures", n);
             if n > 0 { 1 } else { 0 }
         }
         Some("crash-child") => crash_child(Path::new(&args[1]), &parse_tokens(&args[2..])),
